@@ -136,6 +136,13 @@ func HonestSignature(pk, msg []byte) []byte { panic("verifsymx.HonestSignature i
 func MapOrderBegin() {}
 func MapOrderEnd()   {}
 
+// RNGRecord / RNGReplay / RNGOff (engine only; no-ops natively): the engine models
+// Shuffle/Perm as arbitrary permutations; RNGRecord starts recording the draws,
+// RNGReplay makes the following code see the same draws again ("same entropy").
+func RNGRecord() {}
+func RNGReplay() {}
+func RNGOff()    {}
+
 // N builds an input name from a prefix and an index.
 func N(prefix string, i int) string { return prefix + strconv.Itoa(i) }
 
